@@ -4,11 +4,23 @@ from . import solver_props as sp
 
 FUNCS = ['solver.py:Solver.solve', 'solver.py:Solver._attempt_field', 'solver.py:Solver._attempt_input', 'solver.py:Solver._add_form', 'solver.py:Solver._add_input_spec',
          'solver.py:Solver._add_unattempted', 'solver.py:DependencyTracker.add_unmet/meet/has_met/has_unmet/unmet_dependencies/unmet_dependents (inlined)',
-         'solver.py:DependencyTracker.met_dependents (by its verified contract)', 'values.py:ValueStore.__setitem__', '__init__.py:solve']
+         'solver.py:DependencyTracker.met_dependents (by its verified contract)', 'values.py:ValueStore.__setitem__', 'values.py:ValueStore.to_config', '__init__.py:solve']
+
+
+def solution_unit():
+    """The solution handed back is ValueStore.to_config(field_map): exactly the stored lines, each as its own text - none dropped,
+    none added (the unit of C14, which the statement about "the solution" rests on)."""
+    from . import c14
+    out = []
+    for o in c14.to_config_unit():
+        o.id = o.id.replace('C14/', 'C04/solution/')
+        out.append(o)
+    return out
 
 
 def extra_tasks(tier, seed):
-    return []
+    from ..oblig import Task
+    return [Task('solution', solution_unit)]
 
 
 def run(tier, seed, t0):
